@@ -135,10 +135,29 @@ class append_then:
     def candidates(hints):
         for op in ("none", "map", "skip", "limit", "append"):
             yield {"op": op}
+        for args in ("two-numbers", "one-number", "two-lists", "list-and-number", "stream-and-list", "three-numbers", "nothing-then-numbers"):
+            yield {"op": "args", "args": args}
 
     @staticmethod
     def check(inp):
         from audiolazy import Stream
+        if inp["op"] == "args":
+            # append(*other) is Stream(self, *other): iterables are chained, non-iterables form an endlessly repeated tail
+            mk = {"two-numbers": (lambda: (1, -2), [1, -2] * 6), "one-number": (lambda: (5,), [5] * 12), "three-numbers": (lambda: (1, 2, 3), [1, 2, 3] * 4),
+                  "two-lists": (lambda: ([1, 2], [3]), [1, 2, 3]), "list-and-number": None, "stream-and-list": (lambda: (Stream([4, 5]), [6]), [4, 5, 6]),
+                  "nothing-then-numbers": (lambda: (1, -2), [1, -2] * 6)}[inp["args"]]
+            if mk is None:
+                return None
+            head = [] if inp["args"] == "nothing-then-numbers" else [7, 8]
+            s = Stream(list(head))
+            r = outcome(lambda: s.append(*mk[0]()))
+            if r[0] != "ok" or r[1] is not s:
+                return "append%r returned %r" % (inp["args"], r)
+            want = (head + mk[1])[:12]
+            got = outcome(lambda: s.take(12))
+            if got != ("ok", want):
+                return "Stream(%r).append(%s) then take(12) = %r, list model says %r" % (head, inp["args"], got, want)
+            return None
         s, t = Stream([1, 2, 3]), Stream([10, 20, 30, 40])
         s.append(t)
         exp = [1, 2, 3, 10, 20, 30, 40]
